@@ -245,6 +245,11 @@ func main() {
 							}
 						}
 					case *ast.ForStmt:
+						// for c { body } -> for { if !(c) { break }; body }
+						if x.Init == nil && x.Post == nil && x.Cond != nil && len(x.Body.List) > 0 {
+							inner := text(x.Body)
+							emit("while-to-break", x.Pos(), x.End(), "for {\nif !("+text(x.Cond)+") { break }\n"+inner[1:])
+						}
 						// for ... { if c { body } } -> for ... { if !(c) { continue }; body }
 						if len(x.Body.List) == 1 {
 							if ifs, ok := x.Body.List[0].(*ast.IfStmt); ok && ifs.Init == nil && ifs.Else == nil && len(ifs.Body.List) > 0 {
